@@ -1,5 +1,6 @@
 import EtVerif.Props.C11
 import EtVerif.Props.TrC11
+import EtVerif.Props.TrGo11
 #print axioms EtVerif.C11.den_mergeSpan
 #print axioms EtVerif.C11.sorted_mergeSpan
 #print axioms EtVerif.C11.wf_mergeSpan
@@ -21,3 +22,5 @@ import EtVerif.Props.TrC11
 #print axioms EtVerif.TrC11.vector_merge_refines
 #print axioms EtVerif.TrC11.go_mergeSpan_overlay
 #print axioms EtVerif.TrC11.go_vector_merge_overlay
+#print axioms EtVerif.TrGo11.go_merge_run_refines
+#print axioms EtVerif.TrGo11.go_vector_merge_history
